@@ -388,6 +388,15 @@ pub fn run(ctx: &mut Ctx) {
                 _ => "outcome:other",
             })
         });
+        // a panic in a blocking task is a panic, even though tokio hands it to the caller as a
+        // JoinError and the process ends with an ordinary error message
+        if let Some(p) = &r.inner_panic {
+            ctx.fail(
+                &format!("Panic@{}(in a blocking task)", p.split(' ').next().unwrap_or("?")),
+                format!("bita {} on an untrusted archive ({}) panicked in a blocking task at {} and ended with {}; {}", op, inp.what, p, r.outcome.short(), desc),
+            );
+            return;
+        }
         match &r.outcome {
             Outcome::Success | Outcome::Error(_) | Outcome::Usage(_) => {}
             other => {
